@@ -4,7 +4,7 @@
 (if any) fails with the change and passes without, then runs the registered check(s) with VERIF_REPO pointing at the scratch
 tree (evidence redirected) and records caught / missed / inconclusive.
 
-    selftest/run.py [--tier quick|thorough] [--only <substring>] [--jobs N] [--all-checks]
+    selftest/run.py [--tier quick|thorough] [--only <substring> [--merge]] [--jobs N] [--all-checks]
 
 Writes selftest/results.json and selftest/RESULTS.md.  Never touches /repo's working tree.
 """
@@ -122,6 +122,7 @@ def main():
     ap.add_argument("--jobs", type=int, default=3)
     ap.add_argument("--all-checks", action="store_true")
     ap.add_argument("--no-write", action="store_true")
+    ap.add_argument("--merge", action="store_true", help="with --only: replace the rows of the re-run changes in results.json / RESULTS.md")
     a = ap.parse_args()
     items = collect(a.only)
     stable = stable_set()
@@ -133,9 +134,14 @@ def main():
             own.update({p: c.get("verdict") + " :: " + c.get("first", "")[:200] for p, c in r.get("checks", {}).items() if not str(c.get("verdict")).startswith("silent")})
             own["checks_run"] = len(r.get("checks", {}))
         print(r["id"], "tests_ok=" + str(r.get("stable_tests_still_pass")), "demo=" + str((r.get("demo_fails_with_change"), r.get("demo_passes_without"))), own, r.get("error", ""))
-    if a.no_write or a.only:
+    if a.no_write or (a.only and not a.merge):
         return
     path = os.path.join(V, "selftest", "results.json")
+    if a.only and a.merge:
+        # a partial re-run (after a check changed): its rows replace the rows of the same changes in the stored table
+        old = json.load(open(path))["results"]
+        new = {r["id"]: r for r in results}
+        results = [new.pop(r["id"], r) for r in old] + list(new.values())
     json.dump(dict(tier=a.tier, results=results), open(path, "w"), indent=1)
     with open(os.path.join(V, "selftest", "RESULTS.md"), "w") as f:
         f.write(f"# Self-test results (tier {a.tier})\n\nEach breaking change is applied to a scratch worktree; `tests` = the 75 stable tests still pass there; "
